@@ -55,6 +55,10 @@ func runC16(e *Env) {
 				if cal == nil || have[cal] || cal.Pkg == nil || len(cal.Blocks) == 0 || !strings.HasPrefix(cal.Pkg.Pkg.Path(), load.Module) {
 					continue
 				}
+				// the initialisation of an imported package runs once at start-up, whatever the text: not part of the extraction
+				if cal.Name() == "init" || strings.HasPrefix(cal.Name(), "init#") {
+					continue
+				}
 				have[cal] = true
 				fns = append(fns, cal)
 				for _, a := range cal.AnonFuncs {
